@@ -5,6 +5,7 @@ This module provides base classes for functionality common to odML objects.
 import copy
 import operator
 import posixpath
+import sys
 
 try:
     from collections.abc import Iterable
@@ -287,8 +288,9 @@ class Sectionable(BaseObject):
         :param section: odML Section object.
         """
         from odml.section import BaseSection
-        # Refuse a position the list cannot use before anything is moved.
-        position = operator.index(position)
+        # Refuse a position the list cannot use before anything is moved;
+        # one beyond either end means that end, however far beyond.
+        position = max(-sys.maxsize, min(sys.maxsize, operator.index(position)))
 
         if isinstance(section, BaseSection):
             if section.name in self._sections:
